@@ -18,6 +18,7 @@ import (
 	"fmt"
 	"go/token"
 	"go/types"
+	"path/filepath"
 	"regexp"
 	"sort"
 	"strings"
@@ -202,4 +203,141 @@ func lamCoefficient(p poly) (poly, bool) {
 		}
 	}
 	return n, found
+}
+
+// C09.R11 (model evaluation) — the Universal Transverse Mercator system is the transverse
+// Mercator projection with the system's constants: latitude of origin 0, central meridian
+// 6·zone − 183 degrees, scale 0.9996, false easting 500 000 m, false northing 0 in the northern
+// and 10 000 000 m in the southern hemisphere.  For several zones, with and without +south, the
+// members built for "+proj=utm +zone=Z" must return, term for term, what the members built for
+// the transverse Mercator reference with those constants return (forward on a symbolic position,
+// inverse on the projected position).
+func c09utmModel(c *Ctx, rule string) {
+	reg := projRegistry(c)
+	utm, tm := reg.names["utm"], reg.names["tmerc"]
+	if utm == nil || tm == nil || c.P.Decl(utm) == nil || c.P.Decl(tm) == nil {
+		c.Unk(rule, "proj#utm", token.NoPos, "utm and tmerc are not both registered")
+		return
+	}
+	pos := c.P.Decl(utm).Pos()
+	for _, zc := range []struct {
+		zone  int
+		south bool
+	}{{14, false}, {14, true}, {1, false}, {60, true}, {33, false}} {
+		hemi, y0, flag := 1.0, "0", ""
+		if zc.south {
+			hemi, y0, flag = -1.0, "10000000", " +south"
+		}
+		cons := fmt.Sprintf("proj.UTM#zone(%d%s)", zc.zone, strings.TrimSpace(flag))
+		lon0 := 6*zc.zone - 183
+		at := (float64(lon0) + 1.25) * 3.141592653589793 / 180 // a position inside the zone
+		a, why1 := projTermsOf(c, utm, "utm", fmt.Sprintf("+proj=utm +zone=%d%s +a=P7 +rf=P8 +no_defs", zc.zone, flag), hemi, at)
+		b, why2 := projTermsOf(c, tm, "tmerc", fmt.Sprintf("+proj=tmerc +lat_0=0 +lon_0=%d +k_0=0.9996 +x_0=500000 +y_0=%s +a=P7 +rf=P8 +no_defs", lon0, y0), hemi, at)
+		switch {
+		case strings.HasPrefix(why1, "!"):
+			c.Bad(rule, cons, pos, "%s", why1[1:])
+			continue
+		case why1 != "" || why2 != "":
+			c.Unk(rule, cons, pos, "not interpretable: %s%s", why1, why2)
+			continue
+		}
+		bad := ""
+		for _, t := range []struct {
+			what string
+			u, v poly
+		}{{"easting", a.x, b.x}, {"northing", a.y, b.y}, {"longitude of the inverse", a.lon, b.lon}, {"latitude of the inverse", a.lat, b.lat}} {
+			if !t.u.equal(t.v) && !symRationalEqual(t.u, t.v) {
+				bad = fmt.Sprintf("the %s of zone %d%s is not that of the transverse Mercator projection with lat_0=0, lon_0=%d°, k_0=0.9996, x_0=500000, y_0=%s: what differs is %s", t.what, zc.zone, flag, lon0, y0, short(t.u.add(t.v, -1).canon()))
+				break
+			}
+		}
+		if bad != "" {
+			c.Bad(rule, cons, pos, "%s", bad)
+		} else {
+			c.OK(rule, cons, pos, "both members equal, term for term, those of tmerc with the system's constants (lat_0 0, lon_0 %d°, k_0 0.9996, x_0 500000, y_0 %s)", lon0, y0)
+		}
+	}
+}
+
+// C09.R12 (model evaluation) — a named datum stands for its ellipsoid and its shift.  For every
+// entry of the bundled proj4js datum table, "+datum=<name>" must parse to the reference that
+// "+ellps=<the entry's ellipsoid> +towgs84=<the entry's shift>" parses to: same semi-axes and
+// eccentricity, same stored shift values (proj4js: deriveConstants.js takes both from the table).
+// Entries without a three- or seven-value shift (grid-shift datums) are compared on the
+// ellipsoid only.
+func c09namedDatumModel(c *Ctx, rule, jsDir string) {
+	js, err := parseJSExports(filepath.Join(jsDir, "constants", "Datum.js"))
+	if err != nil {
+		c.Unk(rule, "proj4js#Datum.js", token.NoPos, "cannot read the bundled table: %v", err)
+		return
+	}
+	m, parse := newC20m(c)
+	if m == nil {
+		c.Unk(rule, "proj.Parse", token.NoPos, "proj.Parse does not resolve")
+		return
+	}
+	pos := c.P.Decl(parse).Pos()
+	var names []string
+	for n := range js {
+		names = append(names, n)
+	}
+	sort.Strings(names)
+	for _, n := range names {
+		e := js[n]
+		ell, okE := e["ellipse"]
+		if !okE || ell.str == "" {
+			continue
+		}
+		cons := "proj#named-datum(" + n + ")"
+		shift := e["towgs84"].str
+		named, why1 := m.run(parse, "+proj=longlat +datum="+n+" +no_defs")
+		text := "+proj=longlat +ellps=" + ell.str
+		if shift != "" {
+			text += " +towgs84=" + shift
+		}
+		spelled, why2 := m.run(parse, text+" +no_defs")
+		if why1 != "" || why2 != "" {
+			c.Unk(rule, cons, pos, "+datum=%s or its spelled-out form is not interpretable: %s%s", n, why1, why2)
+			continue
+		}
+		bad := ""
+		for _, f := range []string{"A", "B", "Es"} {
+			x, ok1 := symOf(named.fields[f])
+			y, ok2 := symOf(spelled.fields[f])
+			if !ok1 || !ok2 {
+				bad = fmt.Sprintf("?SR.%s is %s for +datum=%s and %s for %s", f, showVal(named.fields[f]), n, showVal(spelled.fields[f]), text)
+				break
+			}
+			if !x.equal(y) {
+				bad = fmt.Sprintf("+datum=%s gives SR.%s = %s, but the datum's ellipsoid %s has %s: a named datum must bring its own ellipsoid", n, f, x.canon(), ell.str, y.canon())
+				break
+			}
+		}
+		if bad == "" && shift != "" {
+			a, ok1 := named.fields["DatumParams"].(oSlice)
+			b, ok2 := spelled.fields["DatumParams"].(oSlice)
+			switch {
+			case !ok1 || !ok2:
+				bad = "?SR.DatumParams is " + showVal(named.fields["DatumParams"]) + " / " + showVal(spelled.fields["DatumParams"])
+			case a.length() != b.length():
+				bad = fmt.Sprintf("+datum=%s stores %d shift values, +towgs84=%s stores %d", n, a.length(), shift, b.length())
+			default:
+				for i := 0; i < a.length() && bad == ""; i++ {
+					x, ok1 := symOf(a.at(i))
+					y, ok2 := symOf(b.at(i))
+					if !ok1 || !ok2 || !x.equal(y) {
+						bad = fmt.Sprintf("+datum=%s stores %s as shift value %d, the table entry %s gives %s", n, showVal(a.at(i)), i+1, shift, showVal(b.at(i)))
+					}
+				}
+			}
+		}
+		switch {
+		case strings.HasPrefix(bad, "?"):
+			c.Unk(rule, cons, pos, "%s", bad[1:])
+		case bad != "":
+			c.Bad(rule, cons, pos, "%s", bad)
+		default:
+			c.OK(rule, cons, pos, "+datum=%s parses to the semi-axes, eccentricity and shift values of %s", n, text)
+		}
+	}
 }
